@@ -485,11 +485,49 @@ fn resize_stream<F: Read + Write + Seek>(
             old_start_sector
         }
     };
+    // The bytes gained by growing the stream must read as zero, whatever the
+    // sectors held before.
+    if new_stream_len > old_stream_len {
+        zero_fill_stream(
+            minialloc,
+            new_start_sector,
+            new_stream_len,
+            old_stream_len,
+        )?;
+    }
     // Update the directory entry for this stream.
     minialloc.with_dir_entry_mut(stream_id, |dir_entry| {
         dir_entry.start_sector = new_start_sector;
         dir_entry.stream_len = new_stream_len;
     })
+}
+
+/// Overwrites with zeros the part of a just-grown stream's chain, starting at
+/// `from`, that may still hold stale data.  Mini sectors are not initialized
+/// when they are allocated, so for a mini chain that is everything up to the
+/// new length.  New regular sectors are zero-initialized, so for a regular
+/// chain it is only the remainder of the sector that contains `from`.
+fn zero_fill_stream<F: Read + Write + Seek>(
+    minialloc: &mut MiniAllocator<F>,
+    start_sector: u32,
+    stream_len: u64,
+    from: u64,
+) -> io::Result<()> {
+    if stream_len < consts::MINI_STREAM_CUTOFF as u64 {
+        let mut chain = minialloc.open_mini_chain(start_sector)?;
+        chain.seek(SeekFrom::Start(from))?;
+        io::copy(&mut io::repeat(0).take(stream_len - from), &mut chain)?;
+    } else {
+        let sector_len = minialloc.version().sector_len() as u64;
+        let end = stream_len.min(from.div_ceil(sector_len) * sector_len);
+        if end > from {
+            let mut chain =
+                minialloc.open_chain(start_sector, SectorInit::Zero)?;
+            chain.seek(SeekFrom::Start(from))?;
+            io::copy(&mut io::repeat(0).take(end - from), &mut chain)?;
+        }
+    }
+    Ok(())
 }
 
 //===========================================================================//
